@@ -14,6 +14,7 @@ import traceback
 
 HERE = os.path.dirname(os.path.abspath(__file__))
 VERIF = os.path.dirname(HERE)
+OUT = os.environ.get('COPIA_VERIF_OUT', VERIF)
 sys.path.insert(0, HERE)
 
 import extract  # noqa: E402
@@ -21,8 +22,7 @@ from facts import Facts  # noqa: E402
 import flow  # noqa: E402
 
 
-class NoVerdict(Exception):
-    """anchor missing / undecided construct: the checker no longer sees what it was written for."""
+from verdict import NoVerdict  # noqa: E402
 
 
 class Ctx:
@@ -129,7 +129,8 @@ def main(argv):
         # positive controls: the rule set must fire on its own violating twins
         if hasattr(mod, 'controls'):
             mod.controls(ctx)
-        ctx.finish_floors()
+        if not ctx.violations:
+            ctx.finish_floors()     # a reported violation is a verdict; floors guard silent passes
     except extract.InfraError as e:
         print('INFRA-FAILURE property=%s: %s' % (prop, e))
         return 2
@@ -143,8 +144,8 @@ def main(argv):
 
     known = [k for k in load_known() if k.get('property') == prop]
     known_by_key = {k['key']: k for k in known if k.get('status') == 'known'}
-    os.makedirs(os.path.join(VERIF, 'reports'), exist_ok=True)
-    os.makedirs(os.path.join(VERIF, 'evidence'), exist_ok=True)
+    os.makedirs(os.path.join(OUT, 'reports'), exist_ok=True)
+    os.makedirs(os.path.join(OUT, 'evidence'), exist_ok=True)
     new = []
     printed_known = []
     for k, v in sorted(ctx.violations.items()):
@@ -154,7 +155,7 @@ def main(argv):
             continue
         new.append(v)
     for v in new:
-        rp = os.path.join(VERIF, 'reports', '%s-%s.json' % (prop, re.sub(r'[^A-Za-z0-9_.-]+', '_', v['key'])[:150]))
+        rp = os.path.join(OUT, 'reports', '%s-%s.json' % (prop, re.sub(r'[^A-Za-z0-9_.-]+', '_', v['key'])[:150]))
         with open(rp, 'w') as fh:
             json.dump({'property': prop, 'tree_key': ctx.tree_key, **v}, fh, indent=1)
         print('%s: %s: %s' % (v['loc'], v['key'], v['message']))
@@ -203,7 +204,7 @@ def main(argv):
         'wall_s': round(time.time() - t0, 3),
         'violations': len(new),
     }
-    with open(os.path.join(VERIF, 'evidence', prop + '.json'), 'w') as fh:
+    with open(os.path.join(OUT, 'evidence', prop + '.json'), 'w') as fh:
         json.dump(ev, fh, indent=1, default=str)
     print('%s: %d obligation(s), %d holding, %d known finding(s), %d new violation(s) [%s, %.1fs]' % (
         prop, n_ob, n_ok, len(printed_known), len(new), tier, time.time() - t0))
